@@ -213,12 +213,29 @@ theorem mt_index_and_peak_index_agree_with_walk (i n : Nat) (hin : i < n) (hn : 
   ⟨_, _, _, leafPos_closed 64 n i hin hn, (mt_spec i n hin hn).1⟩
 example : leafPos 64 14 9 0 0 = some (2, 1, 1) := by decide
 
+/-- **`right_lineage_length_from_node_index`** (the recursive variant) terminates and returns the right-lineage
+    length of the node, for every node index `1 … 2^64 − 1` and on every node of every explicit forest -/
+theorem right_lineage_length_from_node_index_exact :
+    (∀ r ∈ (tree 0 0 63).rootRows, right_lineage_length_from_node_index r.idx = some r.rll) ∧
+    (∀ n, n < 2^63 → ∀ k r, (k, r) ∈ (forest n).rows → right_lineage_length_from_node_index r.idx = some r.rll) :=
+  ⟨fun r hr => rll_node_rows r hr, fun n hn k r hr => forest_rll_node n hn k r hr⟩
+
+/-- **`node_indices_added_by_append`**: for every leaf count `c < 2^63`, the node indices that the explicit forest
+    gains when one leaf is appended: the new leaf `2c − popcount c + 1` and its `trailing_ones c` new ancestors,
+    consecutively numbered -/
+theorem node_indices_added_by_append_exact (c : Nat) (hc : c < 2^63) :
+    node_indices_added_by_append c
+      = some ((List.range ((forest (c+1)).nodes - (forest c).nodes)).map fun k => (forest c).nodes + 1 + k) ∧
+    node_indices_added_by_append c
+      = some ((List.range (trailingOnes c + 1)).map fun k => 2 * c - popCount c + 1 + k) :=
+  ⟨forest_added c hc, added_spec c hc⟩
+example : node_indices_added_by_append 7 = some [12, 13, 14, 15] := by decide +kernel
+
 /-! ## what is still open -/
 
 /-- FULL STATEMENT of C16 in executable form: for every leaf count below `2^63`, *every* index function (translated
     and hand-modelled, see `TF.Mmr.forestAgrees` / `rowAgrees`) reproduces the table of the explicit forest on every
-    node and every leaf — including `right_lineage_length_from_node_index`, `node_indices_added_by_append`,
-    `get_peak_heights_and_peak_node_indices`, `get_authentication_path_node_indices` and the Merkle-tree / peak index
+    node and every leaf — including `get_peak_heights_and_peak_node_indices`, `get_authentication_path_node_indices` and the Merkle-tree / peak index
     of every leaf as recorded in the table -/
 def all_functions_agree_with_forest_statement : Prop := ∀ n, n < 2^63 → forestAgrees n = true
 
